@@ -8,21 +8,31 @@
   Theorems about the executable model Y0.Model.Trso of src/y0/algorithm/transport.py (after the `fix:` commits of
   branch fix-transport), tied to the Python on every run by the correspondence check of harness/props/c05.py.
 
-  What is proved here (all inputs, any recursion budget):
+  What is proved here:
     §1 error taxonomy / totality   `trsoF_error_internal`, `identify_error_cases`, `identify_invalid_iff`,
-                                   `identify_trichotomy`
+                                   `identify_trichotomy`                                  (all inputs, any budget)
+       "never fails otherwise"     `trso_no_internal_error_partial` (no declared experiment: no failure at all),
+                                   `trso_only_activate_error_partial` (ALL validated inputs: the only failure that can
+                                   remain is the NotImplementedError of `activate` on `One()`),
+                                   `trso_no_recursion_or_key_error_partial`
     §2 selection diagrams          `mem_nodes/mem_di/bi_createTransportDiagram`, `tnode_parentless`,
                                    `getNodesToTransport_spec`, `getNodesToTransport_total`
     §3 vocabulary (C06)            `trso_vocab_C05`, `trso_no_domains_target_only`   (proofs in Props/C06Transport)
+       no surrogate = ID           `trso_no_surrogate_iff_id_partial`, `trso_no_surrogate_none_iff_id_partial` (verdicts)
     §4 semantics                   `den_sumSafe`, `line1_den`  (line 1 is marginalisation of the carried distribution)
   What is NOT proved (visible below as `-- OPEN:` blocks and listed in ASSUMPTIONS of the harness module):
-    trso_sound, trso_no_surrogate_iff_id, trso_no_internal_error.
+    trso_sound; the denotation part of trso_no_surrogate_iff_id; trso_no_internal_error for inputs with declared
+    experiments beyond "only `activate`'s NotImplementedError" (that `activate` never meets `One()`).
 -/
 import Y0.Props.C06Transport
 import Y0.Lemmas.TrsoTotal
 import Y0.Spec.FamilySpec
 import Y0.Lemmas.Prob
 import Y0.Props.C14
+import Y0.Lemmas.TrsoNoErr
+import Y0.Lemmas.TrsoIdSim
+import Y0.Lemmas.TrsoAll
+import Y0.Props.C02
 
 namespace Y0
 namespace Trso
@@ -166,15 +176,91 @@ theorem identify_trichotomy {sep : SepTest} (hs : SepInternal sep) (G : MG Name)
     · rw [hv] at hv'; cases hv'
     · exact Or.inr (Or.inr ⟨k, by rw [hk]⟩)
 
--- OPEN: trso_no_internal_error  (the clause "it never fails other than by returning 'no estimand'")
---   theorem trso_no_internal_error (G : MG Name) (hG : G.WF) (hA : G.Acyclic) (hT : ∀ v ∈ G.nodes, isTnode v = false)
---       (hv : validInput G Y X outcomes interventions = true) :
+/-- **No failure when no surrogate experiment is declared** (the clause "it never fails other than by returning 'no
+estimand'", for every input whose source domains declare no experiment: the case in which TRSO has to behave like ID).
+On every validated input over a well-formed acyclic graph of user variables (names below 200, so that the selection
+nodes `T_v = 200 + v` are fresh) with non-empty outcomes, `identify_target_outcomes` returns an estimand or "no
+estimand": no lookup fails (the node sets needed by every later step are preserved by lines 2-4 and 10), no
+`topological_sort` / `index` fails, no expression operator fails (the carried expression never contains `Zero()`, so
+no division by zero; line 9's product is a `Fraction`, so `simplify` exists), and the recursion budget `Query.fuel` is
+never exhausted (the measure (|V|, |V - X|) decreases lexicographically at every recursive call).  The separation
+test is arbitrary: it is never called.  Proof: Lemmas/TrsoGraphInv, TrsoT234, TrsoT610 (graph invariant), TrsoClean
+(expression operators), TrsoInit (initial query), TrsoNoErr (assembly). -/
+theorem trso_no_internal_error_partial (sep : SepTest) (G : MG Name) (hG : G.WF) (hA : G.Acyclic)
+    (hsmall : ∀ v ∈ G.nodes, v < 200) (Y X : List Name) (outcomes interventions : List (Pop × List Name))
+    (hv : validInput G Y X outcomes interventions = true) (hY : Y ≠ [])
+    (hZ : ∀ p ∈ interventions, p.2 = []) :
+    ∃ r, identifyTargetOutcomes sep G Y X outcomes interventions = .ok r := by
+  obtain ⟨graphs, hg⟩ := surrogateToTransport_ok hG hv
+  obtain ⟨hinv, hmu, hc⟩ := initial_inv hG hA (noT_of_small hsmall) hsmall hv hY hg
+  rw [identify_eq_trso hv hg]
+  obtain ⟨o, ho, _⟩ := trsoF_target_ok sep _ _ _ G hinv (initial_noSurr hZ) hc hmu
+  exact ⟨o, ho⟩
+
+/-- in particular: no internal error and no invalid-input error on such inputs -/
+theorem trso_no_error_class_partial (sep : SepTest) (G : MG Name) (hG : G.WF) (hA : G.Acyclic)
+    (hsmall : ∀ v ∈ G.nodes, v < 200) (Y X : List Name) (outcomes interventions : List (Pop × List Name))
+    (hv : validInput G Y X outcomes interventions = true) (hY : Y ≠ [])
+    (hZ : ∀ p ∈ interventions, p.2 = []) (k : String) :
+    identifyTargetOutcomes sep G Y X outcomes interventions ≠ .error (.internal k) := by
+  obtain ⟨r, hr⟩ := trso_no_internal_error_partial sep G hG hA hsmall Y X outcomes interventions hv hY hZ
+  rw [hr]; intro h; cases h
+
+/-- **All inputs: the only failure that remains possible is the `NotImplementedError` of
+`activate_domain_and_interventions`.**  For every validated input over a well-formed acyclic graph of user variables
+(names below 100, so that `T_v = 200 + v` is a fresh selection node) with non-empty outcomes, and the separation test
+of the code (`are_d_separated`), `identify_target_outcomes` returns an estimand, returns "no estimand", or raises the
+`NotImplementedError` that `activate_domain_and_interventions` raises when the estimand found inside a source domain
+contains `One()`.  Every other `raise` site of the recursion is unreachable: no `KeyError` (domain / experiment
+look-ups, `are_d_separated` arguments, `nx.ancestors` sources - the node sets every later step needs are preserved),
+no `NetworkXUnfeasible` / `ValueError` from `topological_sort` / `index`, no `RuntimeError`, no `ZeroDivisionError` /
+`TypeError` / `AttributeError` from the expression operators, no `ValueError` from `intervene`, and no
+`RecursionError` (the budget `Query.fuel` exceeds the lexicographic measure (line 6 still possible, |V|,
+2·|regular nodes outside X| + [a selection node outside X]), which decreases at every recursive call).
+The phase after line 6 needs the semantic content of the separation test: a positive answer forces every child of a
+surviving selection node to be a target intervention (`allTransportsDSeparated_true_blocks`), so line 3 moves the
+selection nodes into X before line 4 can split on them.
+Proof: Lemmas/TrsoQInv (invariant, measure), TrsoQ23, TrsoQ410, TrsoQ6 (the lines), TrsoSep (separation test),
+TrsoClean, TrsoActivate (expression operators), TrsoQInit (initial query), TrsoPlumb, TrsoAll (assembly). -/
+theorem trso_only_activate_error_partial (G : MG Name) (hG : G.WF) (hA : G.Acyclic)
+    (hsmall : ∀ v ∈ G.nodes, v < 100) (Y X : List Name) (outcomes interventions : List (Pop × List Name))
+    (hv : validInput G Y X outcomes interventions = true) (hY : Y ≠ []) (err : Err)
+    (h : identifyTargetOutcomes dSeparated G Y X outcomes interventions = .error err) :
+    err = .internal "NotImplementedError" := by
+  obtain ⟨graphs, hg⟩ := surrogateToTransport_ok hG hv
+  obtain ⟨hinv, hmu, hc, hr⟩ := qinitial_inv hG hA hsmall hv hY hg
+  rw [identify_eq_trso hv hg] at h
+  exact (trsoF_all_good _ _ _ G hinv hc hr hmu).1 err h
+
+/-- in particular the recursion budget of the model is never exhausted (Python: no `RecursionError`) and no look-up
+fails, on any validated input -/
+theorem trso_no_recursion_or_key_error_partial (G : MG Name) (hG : G.WF) (hA : G.Acyclic)
+    (hsmall : ∀ v ∈ G.nodes, v < 100) (Y X : List Name) (outcomes interventions : List (Pop × List Name))
+    (hv : validInput G Y X outcomes interventions = true) (hY : Y ≠ []) (k : String)
+    (hk : k = "RecursionError" ∨ k = "KeyError" ∨ k = "NetworkXError" ∨ k = "NetworkXUnfeasible" ∨
+      k = "RuntimeError" ∨ k = "ZeroDivisionError" ∨ k = "TypeError" ∨ k = "AttributeError" ∨ k = "ValueError" ∨
+      k = "NodeNotFound" ∨ k = "fuel") :
+    identifyTargetOutcomes dSeparated G Y X outcomes interventions ≠ .error (.internal k) := by
+  intro h
+  have := trso_only_activate_error_partial G hG hA hsmall Y X outcomes interventions hv hY _ h
+  injection this with hk'
+  rcases hk with rfl | rfl | rfl | rfl | rfl | rfl | rfl | rfl | rfl | rfl | rfl <;> simp at hk'
+
+/-- non-vacuity: the napkin graph with a source domain that declares surrogate outcomes but no experiment -/
+example : validInput (MG.fromEdges [] [(0, 1), (1, 2), (2, 3)] [(0, 2), (0, 3)]) [3] [2] [(1001, [1])] [(1001, [])] = true := by
+  decide
+
+-- OPEN: trso_no_internal_error  (the clause "it never fails other than by returning 'no estimand'", all inputs)
+--   theorem trso_no_internal_error (G : MG Name) (hG : G.WF) (hA : G.Acyclic) (hsmall : ∀ v ∈ G.nodes, v < 100)
+--       (hv : validInput G Y X outcomes interventions = true) (hY : Y ≠ []) :
 --       ∀ k, identifyTargetOutcomes dSeparated G Y X outcomes interventions ≠ .error (.internal k)
---   Needs the graph invariants of the recursion (every graph of the query is a well-formed acyclic sub-diagram that
---   contains the outcomes; the children of a surviving selection node are target interventions; the budget
---   `Query.fuel` bounds the lexicographic measure (active = ∅, |V|, |V_regular − X|, |V − X|)).  Not proved; every run
---   of the check compares the error category of the model and of the Python on ~10^4 inputs and reports any
---   exception on valid input as a violation.
+--   Proved above: for inputs without declared experiments (`trso_no_internal_error_partial`), and for all inputs up to
+--   ONE raise site (`trso_only_activate_error_partial`): `activate_domain_and_interventions` raises NotImplementedError
+--   on `One()`.  What is missing is a shape argument about the estimands returned by the source-phase recursion: they
+--   never contain `One()` (a joint is never summed over all its children, line 9's numerator never cancels completely,
+--   `canonicalize` never meets a fraction with equal numerator and denominator).  Every run of the check compares the
+--   error category of the model and of the Python on ~10^4 inputs and reports any exception on valid input as a
+--   violation; no input reaching that raise site has been found.
 
 /-! ## 2. Selection diagrams, set-theoretically -/
 
@@ -277,12 +363,63 @@ theorem trso_no_domains_target_only (sep : SepTest) (G : MG Name) (Y X : List Na
     (h : identifyTargetOutcomes sep G Y X outcomes [] = .ok (some e)) : TargetOnly e :=
   trso_vocab_no_domains sep G Y X outcomes hG e h
 
--- OPEN: trso_no_surrogate_iff_id
---   theorem trso_no_surrogate_iff_id (G : MG Name) (hG : G.WF) (hA : G.Acyclic) … (hZ : ∀ p ∈ interventions, p.2 = []) :
---       (∃ e, identifyTargetOutcomes dSeparated G Y X outcomes interventions = .ok (some e)) ↔ (∃ e', Id.identify G X Y = .ok e')
---   and both estimands denote the same function in every `Scm` compatible with `G`.
---   Needs the `id` family's model (Y0.Model.Id) and the line-by-line simulation TRSO 1,2,3,4,9,10,11 ~ ID 1,2,3,4,6,7,5.
---   Checked on every run against the real `identify_outcomes` (3 000+ no-surrogate cases in the quick tier).
+/-- **With no usable surrogate experiment TRSO returns an estimand exactly when ID does** (verdict part of the clause).
+For every validated input over a well-formed acyclic graph of user variables, with non-empty outcomes and source
+domains that declare no experiment, `identify_target_outcomes` returns an estimand iff the model of ID
+(`Y0.identify`, Model/Id.lean, for ANY topological-order oracle `topo` that is total and lists the nodes) returns one -
+and, by `trso_no_internal_error_partial` and `id_total`, otherwise TRSO returns "no estimand" and ID raises
+`Unidentifiable`.  Proof (Lemmas/TrsoIdCongr, TrsoIdSim): lock-step simulation TRSO 1,2,3,4,8,9,10 ~ ID 1,2,3,4,5,6,7 on
+states that agree up to the insertion order of graphs and sets; line 6 never fires (`step67_none`). -/
+theorem trso_no_surrogate_iff_id_partial {topo : MG Name → Except Err (List Name)} (ht : TopoGood topo) (sep : SepTest)
+    (G : MG Name) (hG : G.WF) (hA : G.Acyclic) (hsmall : ∀ v ∈ G.nodes, v < 200) (Y X : List Name)
+    (outcomes interventions : List (Pop × List Name)) (hv : validInput G Y X outcomes interventions = true) (hY : Y ≠ [])
+    (hZ : ∀ p ∈ interventions, p.2 = []) :
+    (∃ e, identifyTargetOutcomes sep G Y X outcomes interventions = .ok (some e)) ↔
+      (∃ e', identify topo G X Y = .ok e') := by
+  obtain ⟨graphs, hg⟩ := surrogateToTransport_ok hG hv
+  obtain ⟨hinv, hmu, hc⟩ := initial_inv hG hA (noT_of_small hsmall) hsmall hv hY hg
+  rw [identify_eq_trso hv hg]
+  obtain ⟨hYin, _, _, _, hXY, _, hne⟩ := validInput_spec hv
+  obtain ⟨c, hcj⟩ := pJoint_ok hne
+  unfold identify trso
+  rw [hcj]
+  exact trsoF_iff_idAlg ht sep _ _ _ G _ hinv (initial_noSurr hZ) hc hmu
+    ⟨hG, MG.acyclic_ranked hG hA, hYin, hY, hXY, trivial⟩
+    ⟨MG.equiv_refl G, fun v => (mem_nsort v X).symm, fun v => (mem_nsort v Y).symm⟩
+
+
+/-- the two refusals correspond as well: "no estimand" iff ID raises `Unidentifiable` -/
+theorem trso_no_surrogate_none_iff_id_partial {topo : MG Name → Except Err (List Name)} (ht : TopoGood topo) (sep : SepTest)
+    (G : MG Name) (hG : G.WF) (hA : G.Acyclic) (hsmall : ∀ v ∈ G.nodes, v < 200) (Y X : List Name)
+    (outcomes interventions : List (Pop × List Name)) (hv : validInput G Y X outcomes interventions = true) (hY : Y ≠ [])
+    (hZ : ∀ p ∈ interventions, p.2 = []) :
+    identifyTargetOutcomes sep G Y X outcomes interventions = .ok none ↔ identify topo G X Y = .error .unidentifiable := by
+  have hiff := trso_no_surrogate_iff_id_partial ht sep G hG hA hsmall Y X outcomes interventions hv hY hZ
+  obtain ⟨r, hr⟩ := trso_no_internal_error_partial sep G hG hA hsmall Y X outcomes interventions hv hY hZ
+  obtain ⟨hYin, _, _, _, hXY, _, _⟩ := validInput_spec hv
+  have hid := id_total ht G X Y ⟨hG, MG.acyclic_ranked hG hA, hYin, hY, hXY⟩
+  constructor
+  · intro hnone
+    rcases hid with ⟨e', he'⟩ | hun
+    · obtain ⟨e, he⟩ := hiff.2 ⟨e', he'⟩
+      rw [hnone] at he; cases he
+    · exact hun
+  · intro hun
+    cases r with
+    | none => exact hr
+    | some e =>
+      obtain ⟨e', he'⟩ := hiff.1 ⟨e, hr⟩
+      rw [hun] at he'; cases he'
+
+-- OPEN: trso_no_surrogate_iff_id (denotation part)
+--   ... and both estimands denote the same function in every `Scm` compatible with `G`:
+--       den env σ' e σ = den env σ' e' σ   for the estimands e (TRSO) and e' (ID) of the theorem above.
+--   The ID side is `id_sound` (Props/C01).  The TRSO side needs the denotation lemmas of the TrDsl operators
+--   (`Sum.simplify` on a joint, `Product.safe`, `*`, `/`, `Fraction.simplify`, `canonicalize`; only `Sum.safe` is done:
+--   `den_sumSafe`) - fraction cancellation is only sound where the cancelled factor is non-zero, i.e. under positivity -
+--   and then the same invariant as `id_sound` ("the carried estimand denotes Q[V_cur]").  Checked on every run: the
+--   exact-rational oracle evaluates every TRSO estimand against P*(y|do(x)), and the verdict is compared with the real
+--   `identify_outcomes` on every no-surrogate case.
 
 /-! ## 4. Semantics: what is proved, and the full statement -/
 
